@@ -204,13 +204,19 @@ fn process_request_obj(request: &Request, dbs: &Arc<Databases>, client: &mut Cli
                 }
                 return Response::Ok {};
             } else {
-                // Validate all dbs are existent
-                let map_dbs = dbs.map.read().unwrap();
-                let missing_dbs = db_names
-                    .clone()
-                    .into_iter()
-                    .map(|db_name| (map_dbs.contains_key(&db_name.to_string()), db_name))
-                    .filter(|db_exists| !db_exists.0);
+                // Validate all dbs are existent. The map lock is released before the snapshots are
+                // requested: they read-lock the map again, and a read lock taken twice by one thread
+                // deadlocks as soon as a writer (create-db) queues in between
+                let missing_dbs = {
+                    let map_dbs = dbs.map.read().unwrap();
+                    db_names
+                        .clone()
+                        .into_iter()
+                        .map(|db_name| (map_dbs.contains_key(&db_name.to_string()), db_name))
+                        .filter(|db_exists| !db_exists.0)
+                        .collect::<Vec<_>>()
+                        .into_iter()
+                };
 
                 match missing_dbs.clone().count() {
                     0 => {
